@@ -23,6 +23,7 @@ class Stats:
         self.lemma_queries = 0
         self.lemma_time = 0.0
         self.den_queries = 0
+        self.normalised = 0  # goals that became `0 != 0` after polynomial normalisation (no solver call needed)
         self.cvc5_queries = 0
         self.cvc5_disagree = 0
         self.axioms: Dict[str, int] = {}
@@ -210,7 +211,7 @@ class Z3Solver:
                 return False, st[0], st[1], d
         return True, "unsat", None, None
 
-    def prove_equal(self, pre: Sequence[T], lhs: T, rhs: T):
+    def prove_equal(self, pre: Sequence[T], lhs: T, rhs: T, skip_den: bool = False):
         """Decide Pre => lhs == rhs.  Returns dict(status, model, why)."""
         if lhs is rhs:
             return {"status": "unsat", "trivial": True}
@@ -218,12 +219,35 @@ class Z3Solver:
             goal = tm.not_(tm.eq(tm.boo(lhs), tm.boo(rhs)))
             status, model, dt = self.check(list(pre) + [goal])
             return {"status": status, "model": model}
-        ok, dst, dmodel, culprit = self.denominators_nonzero(pre, [lhs, rhs])
+        ok, dst, dmodel, culprit = (True, None, None, None) if skip_den else self.denominators_nonzero(pre, [lhs, rhs])
         if not ok:
             return {"status": "den-" + dst, "model": dmodel, "why": f"divisor may be zero: {tm.show(culprit, 160)}"}
-        goal = tm.not_(tm.eq(tm.ratfun_cross(lhs, rhs), tm.ZERO))
+        cross = tm.ratfun_cross(lhs, rhs)
+        goal = tm.not_(tm.eq(cross, tm.ZERO))
         if goal is tm.FALSE:
             return {"status": "unsat", "trivial": True}
+        # pre-solver normalisation: expand the division-free difference into a canonical polynomial over its atoms; when it is
+        # the zero polynomial the goal `0 != 0` is false for every value of the atoms (counted as a normalised, trivial query)
+        # sums of many fractions: per-denominator groups instead of one common denominator
+        try:
+            if tm.size([lhs, rhs]) < 20000 and tm.denominators([lhs, rhs]) and tm.rational_zero(tm.sub(lhs, rhs)):
+                self.stats.normalised = getattr(self.stats, "normalised", 0) + 1
+                return {"status": "unsat", "trivial": True, "normalised": True}
+        except (tm.PolyTooLarge, RecursionError):
+            pass
+        # Shared sub-terms may be abstracted by fresh atoms first (an identity that holds with sub-terms treated as
+        # independent unknowns holds a fortiori); the full expansion is the last attempt.
+        if tm.size([cross]) < 20000:
+            for thr in (6, 24, 96, None):
+                try:
+                    opaque = tm.shared_nodes(cross, thr) if thr is not None else None
+                    if thr is not None and not opaque:
+                        continue
+                    if not tm.polynomial(cross, limit=20000 if thr is not None else 60000, opaque=opaque):
+                        self.stats.normalised = getattr(self.stats, "normalised", 0) + 1
+                        return {"status": "unsat", "trivial": True, "normalised": True}
+                except (tm.PolyTooLarge, RecursionError):
+                    continue
         status, model, dt = self.check(list(pre) + [goal])
         return {"status": status, "model": model}
 
